@@ -366,6 +366,8 @@ def run(chk, repo, tier):
     own_storage_rule(chk, repo, 'C02-p')
     from .prop_flow import skip_rule as _skip_rule
     _skip_rule(chk, repo, 'C02-p')
+    from .prop_flow import per_field_shift_rule as _pfs_rule
+    _pfs_rule(chk, repo, 'C02-p')
     insert_rules(chk, repo, 'C02-p')
     _common.mul_concat(chk, repo, 'C02-p')
     chk.clause('C02-k', 'the transform the propagator calls evaluates the Fraunhofer kernel: phase -2*pi*i*alpha*(u - shift)(x + offset) '
